@@ -360,7 +360,7 @@ def one_case(mon, rng, c):
 
 def floors(merged, tier):
     out = []
-    for need in ("supply", "withdraw", "borrow", "repay"):
+    for need in ("supply", "withdraw", "borrow", "repay", "repay_all", "withdraw_all", "repay_half_twice", "withdraw_part3"):
         if merged["reach"].get(need, 0) < 3:
             out.append(f"operation {need} accepted fewer than 3 times")
     return out
